@@ -2101,6 +2101,7 @@ class TestGraph(object):
         logging.debug(f"Worker {worker.id} starting from the shared root")
         traverse_path = [root]
         occupied_at, occupied_wait = set(), 0.0
+        passed_flat_nodes = set()
         while not root.is_cleanup_ready(worker):
             next = traverse_path[-1]
             if len(traverse_path) > 1:
@@ -2203,13 +2204,13 @@ class TestGraph(object):
                 if next.is_cleanup_ready(worker):
                     self.report_progress()
 
-                    # nodes still to be unrolled by this worker could also become children
+                    # nodes this worker has not passed yet could still be unrolled for it and become children
                     unexplored_nodes = [
                         node
                         for node in self.nodes
                         if node.is_flat()
                         and not node.is_unrolled(worker)
-                        and node.should_parse(worker)
+                        and node not in passed_flat_nodes
                     ]
                     if not next.is_flat() and len(unexplored_nodes) > 0:
                         # postpone cleaning up current node since it might have newly added children
@@ -2224,6 +2225,8 @@ class TestGraph(object):
 
                     for setup in next.setup_nodes:
                         setup.drop_child(next, worker)
+                    if next.is_flat():
+                        passed_flat_nodes.add(next)
                     await self.reverse_node(next, worker, params)
                     traverse_path.pop()
                 else:
